@@ -4178,6 +4178,8 @@ def Gillespie_simple_contagion(G, spontaneous_transition_graph,
                     
         for nbr in G.neighbors(node):
             #print(status[node],status[nbr])
+            if nbr == node: #a self-loop never induces anything
+                continue
             if nbr_induced_transition_graph.has_node((status[node],status[nbr])):# and nbr_induced_transition_graph.degree((status[node],status[nbr])) >0:
                 for transition in nbr_induced_transition_graph.edges((status[node],status[nbr])):
                     potential_transitions[transition].update((node, nbr), weight_increment = get_weight[transition][(node, nbr)])
@@ -4261,6 +4263,8 @@ def Gillespie_simple_contagion(G, spontaneous_transition_graph,
                 for nbr in G.neighbors(modified_node):
                     #remove edge from any induced lists
                     #add edge to any induced lists
+                    if nbr == modified_node: #move past self edges
+                        continue
 
                     nbr_status = status[nbr]
                     
@@ -4273,6 +4277,8 @@ def Gillespie_simple_contagion(G, spontaneous_transition_graph,
                 for pred in G.predecessors(modified_node):
                     #remove edge from any induced lists
                     #add edge to any induced lists
+                    if pred == modified_node: #move past self edges
+                        continue
 
                     pred_status = status[pred]
                     if (pred, modified_node) not in get_weight[transition]:
@@ -4285,6 +4291,8 @@ def Gillespie_simple_contagion(G, spontaneous_transition_graph,
                 for nbr in G.neighbors(modified_node):
                     #remove edge from any induced lists
                     #add edge to any induced lists
+                    if nbr == modified_node: #move past self edges
+                        continue
                     nbr_status = status[nbr]
                     
                     if (modified_node, nbr) not in get_weight[transition]:
